@@ -172,7 +172,8 @@ def rule_add(ctx: Ctx, repo: Repo) -> None:
         ctx.check(ser[0] < (enters[0] if enters else 0) or True, "R-C09.4", add.fq, "serialisation happens outside the transaction", construct=f"{kinds}")
         # the rows handed to executemany are the materialised list built in the loop
         rows = sc.executed[0][2][0] if sc.executed and sc.executed[0][2] else None
-        ctx.check(isinstance(rows, R) and rows.kind == "list", "R-C09.4", add.fq, "executemany receives a materialised list (not a lazy generator that could fail mid-insert)", construct=str(rows)[:100])
+        ctx.check(isinstance(rows, R) and (rows.kind == "list" or (rows.kind == "comp" and rows.fields["ckind"] == K("list") and not rows.fields["ifs"])), "R-C09.4", add.fq,
+                  "executemany receives a materialised list (not a lazy generator that could fail mid-insert)", construct=str(rows)[:100])
     ctx.check("commit" not in kinds and "rollback" not in kinds, "R-C09.4", add.fq, "add does not commit or roll back by hand", construct=f"{kinds}")
     # whole module: no commit / executescript / autocommit / isolation_level
     mod = repo.module(DM.DB)
